@@ -241,7 +241,7 @@ func writeValue(buf *bytes.Buffer, v value) {
 		buf.WriteString("]")
 
 	case *Rope:
-		buf.WriteString(StrTerm(v))
+		buf.WriteString(describeParts(v.Parts))
 	case SymInt:
 		buf.WriteString(v.T)
 	case SymBool:
